@@ -618,6 +618,37 @@ func (fc *fctx) call(cc *ssa.CallCommon, pos token.Pos, site *ssa.Call) []*Val {
 		return fc.builtin(b, cc, pos, site)
 	}
 	var args []*Val
+	tr.callLocalArgs = nil
+	tr.callArgTypes = map[string]types.Type{}
+	for _, a := range cc.Args {
+		// static type of what a pointer-like argument designates
+		switch at := a.Type().Underlying().(type) {
+		case *types.Pointer:
+			tr.callArgTypes[fc.val(a).E()] = at.Elem()
+		case *types.Slice:
+			tr.callArgTypes[slPart(fc.val(a), 0)] = at.Elem()
+		case *types.Map:
+			tr.callArgTypes[fc.val(a).E()] = a.Type()
+		case *types.Interface:
+			if inner, it := staticArgType(a); inner != nil {
+				if pt, ok := it.Underlying().(*types.Pointer); ok {
+					tr.callArgTypes[ifPart(fc.val(a), 1)] = pt.Elem()
+				}
+			}
+		}
+	}
+	for _, a := range cc.Args {
+		if st, _ := structOf(a.Type()); st != nil {
+			if ld, ok := a.(*ssa.UnOp); ok && ld.Op == token.MUL {
+				if al, ok := ld.X.(*ssa.Alloc); ok {
+					if tr.callLocalArgs == nil {
+						tr.callLocalArgs = map[string]bool{}
+					}
+					tr.callLocalArgs[fc.val(al).E()] = true
+				}
+			}
+		}
+	}
 	for _, a := range cc.Args {
 		v := fc.val(a)
 		// a pointer to a leaf cell carries the partition of the cell it designates (a struct field, a slice element):
@@ -642,6 +673,10 @@ func (fc *fctx) call(cc *ssa.CallCommon, pos token.Pos, site *ssa.Call) []*Val {
 			return fc.callContract(c, key, tr.contracts.ExtSigs[key], append([]*Val{recv}, args...), sig.Results(), pos)
 		}
 		tr.warn("%s: invoke %s without contract: havoc everything", fnKey(fc.fn), key)
+		tr.callArgs = nil
+		for _, a := range append([]*Val{recv}, args...) {
+			tr.callArgs = append(tr.callArgs, tr.pointersIn(a, 0)...)
+		}
 		tr.havocAll()
 		return fc.freshResults(cc.Signature().Results(), "inv")
 	}
@@ -684,6 +719,10 @@ func (fc *fctx) call(cc *ssa.CallCommon, pos token.Pos, site *ssa.Call) []*Val {
 	}
 	if len(callee.Blocks) == 0 {
 		tr.warn("%s: call of body-less %s: havoc everything", fnKey(fc.fn), key)
+		tr.callArgs = nil
+		for _, a := range args {
+			tr.callArgs = append(tr.callArgs, tr.pointersIn(a, 0)...)
+		}
 		tr.havocAll()
 		return fc.freshResults(callee.Signature.Results(), "ext")
 	}
